@@ -542,10 +542,11 @@ class FakeTransport:
 class Sent:
     """One recorded transmission."""
 
-    __slots__ = ('t', 'out', 'addr', 'port', 'transport', 'packet')
+    __slots__ = ('t', 'out', 'addr', 'port', 'transport', 'packet', 'dest')
 
     def __init__(self, t: Any, out: Any, addr: Any, port: Any, transport: str, packet: bytes) -> None:
         self.t, self.out, self.addr, self.port, self.transport, self.packet = t, out, addr, port, transport, packet
+        self.dest: Any = (addr, port)
 
     @property
     def multicast(self) -> bool:
@@ -559,7 +560,7 @@ class Sent:
         return f'<Sent t={self.t} to={self.addr}:{self.port} via={self.transport} out={self.out!r}>'
 
 
-def make_zc(loop: FakeLoop, token_packets: bool = True, n_transports: int = 1) -> Any:
+def make_zc(loop: FakeLoop, token_packets: bool = True, n_transports: int = 1, families: Any = None) -> Any:
     """A Zeroconf instance built without sockets or threads (all attributes as in __init__)."""
     import asyncio as aio
 
@@ -595,8 +596,10 @@ def make_zc(loop: FakeLoop, token_packets: bool = True, n_transports: int = 1) -
     zc._loop_thread = None
     transports = []
     for i in range(n_transports):
+        v6 = bool(families) and families[i] == 'v6'
         ft = FakeTransport(loop, f'sock{i}')
-        wt = _WrappedTransport(ft, False, None, 7 + i, ('0.0.0.0', 5353))  # type: ignore[arg-type]
+        ft.v6 = v6  # type: ignore[attr-defined]
+        wt = _WrappedTransport(ft, v6, None, 7 + i, ('::', 5353, 0, 0) if v6 else ('0.0.0.0', 5353))  # type: ignore[arg-type]
         transports.append(wt)
         zc.engine.senders.append(wt)
         zc.engine.readers.append(wt)
@@ -615,7 +618,9 @@ def sent_log(zc: Any) -> List[Sent]:
         ft = wt.transport
         for t, packet, addr in ft.sent:
             o = getattr(packet, 'out', None)
-            out.append(Sent(t, o, addr[0], addr[1], ft.name, packet))
+            snt = Sent(t, o, addr[0], addr[1], ft.name, packet)
+            snt.dest = tuple(addr)
+            out.append(snt)
     return out
 
 
